@@ -9,7 +9,7 @@ CONSTANTS DefaultMaxDepth = 20
   MaxHeight = 3
   Decos = {0, 1, 2}
   MDs = {0, 2}
-  Pres <- PresAll
+  Pres <- PresTwo
   GenMode = FALSE
 INVARIANTS ImplMeetsSpec SpecSane
 CHECK_DEADLOCK FALSE
